@@ -235,6 +235,37 @@ def work(desc):
     return out
 
 
+def memcheck_work(desc):
+    """Sanitizer pass: the same hostile programs under valgrind memcheck (plain binary)."""
+    import os
+    import subprocess
+    import tempfile
+    import shutil
+    out = {"desc": desc, "errors": None, "skipped": False}
+    try:
+        prog = build(desc)
+        r = P.render(prog)
+        M.run(prog, r, fuel=5000)
+    except M.ModelLimit:
+        out["skipped"] = True
+        return out
+    d = tempfile.mkdtemp(prefix="c02vg-", dir="/dev/shm" if os.path.isdir("/dev/shm") else core.WORK)
+    try:
+        with open(os.path.join(d, "t.sd"), "w") as f:
+            f.write(r.text)
+        p = subprocess.run(["valgrind", "-q", "--error-exitcode=99", "--errors-for-leak-kinds=none", "--leak-check=no",
+                            core.BIN_PLAIN, "t.sd"], cwd=d, env={}, stdin=subprocess.DEVNULL, stdout=subprocess.PIPE, stderr=subprocess.PIPE, timeout=120)
+        out["code"] = p.returncode
+        if p.returncode == 99 or b"Invalid read" in p.stderr or b"Invalid write" in p.stderr or b"uninitialised" in p.stderr:
+            out["errors"] = p.stderr.decode("utf-8", "replace")[-1500:]
+            out["src"] = r.text
+    except subprocess.TimeoutExpired:
+        out["skipped"] = True
+    finally:
+        shutil.rmtree(d, ignore_errors=True)
+    return out
+
+
 def run(rep, tier):
     rng = core.rng_for(PROP)
     descs = []
@@ -281,6 +312,18 @@ def run(rep, tier):
             same_cell_events += res.get("same_cell", 0)
         if res["viol"]:
             rep.violation(*res["viol"])
+    # memory-error sanitizer over a sample of the same workload
+    vg_sample = [d for d in descs if d[0] != "progen"][:: (40 if tier == "quick" else 6)] + [d for d in descs if d[0] == "progen"][: (40 if tier == "quick" else 600)]
+    vg_runs = 0
+    for res in core.pool().imap_unordered(memcheck_work, vg_sample, chunksize=2):
+        if res["skipped"]:
+            continue
+        vg_runs += 1
+        rep.process_runs += 1
+        if res["errors"]:
+            rep.violation("memcheck/" + res["desc"][0], "valgrind memcheck reports a memory error: " + res["errors"][-300:],
+                          {"src": res["src"], "oracle": "valgrind memcheck", "report": res["errors"]})
+    rep.cov["valgrind_memcheck_runs"] = vg_runs
     rep.exhaustive = True
     rep.cov["hook_operator_entries_with_both_operands_the_same_cell"] = same_cell_events
     rep.extra["alias_matrix_cases"] = n_alias
